@@ -167,6 +167,7 @@ def oracle_multi(*fns, orders=('r1', 'r2', 'r3'), shear=False, count=None):
         for fn in fns:
             fn(objs, st)
         return st.out()
+    run.fns = fns
     return run
 
 
@@ -326,6 +327,37 @@ def reproduce_known(k, ctx):
 
 
 def replay(path):
-    d = json.load(open(path))
-    print(json.dumps(d, indent=1)[:3000])
+    """re-evaluate the recorded failing input on the current tree: exit 1 if the recorded clause still fails, 0 if it passes"""
+    d = json.load(open(path if os.path.exists(path) else os.path.join(VERIF, path)))
+    prop = d['property']
+    print('replay of %s (%s)' % (prop, d.get('kind')))
+    if d.get('kind') != 'failing-input':
+        print('no concrete failing input was recorded; broken obligations at the time:')
+        for b in d.get('broken', []):
+            print('  -', b['kind'], b['what'], '|', b['detail'][:300])
+        print('re-run `./check %s` to see whether they still break' % prop)
+        return 0
+    f = d['failure']
+    case = f.get('case', {})
+    kw = case.get('kwargs', {})
+    print('clause :', f['clause']); print('case   :', json.dumps(case)[:1500]); print('recorded: observed %r, bound %r, detail %r' % (f.get('observed'), f.get('bound'), f.get('detail')))
+    ctor = {'rc', 'zs', 'rs', 'zc', 'nfp', 'etabar', 'sigma0', 'B0', 'I2', 'sG', 'spsi', 'nphi', 'B2s', 'B2c', 'p2', 'order'}
+    fns = getattr(PROPS[prop].get('oracle'), 'fns', None)
+    if fns and kw and set(kw) <= ctor:
+        with LogCapture(logging.WARNING) as lc:
+            with Capture() as cap:
+                q = Qsc(**kw)
+                if prop == 'C19' and q.order == 'r3':
+                    q.calculate_shear()
+        cap.newton_warned = any('did not get close' in r.getMessage() for r in lc.records)
+        st = oracles.Stats()
+        for fn in fns:
+            fn([(dict(kind=case.get('kind'), name=case.get('name'), kwargs=kw), q, cap)], st)
+        fails = [x for x in st.failures if x['clause'] == f['clause']]
+        for x in fails[:3]:
+            print('STILL FAILS: observed %r > bound %r  %r' % (x['observed'], x['bound'], x.get('detail')))
+        if not fails:
+            print('the clause now holds on this input (worst/bound = %r)' % st.worst.get(f['clause']))
+        return 1 if fails else 0
+    print('this replay is re-evaluated by re-running the check with the recorded seed: VERIF_SEED=%s ./check %s --tier %s' % (d.get('seed'), prop, d.get('tier')))
     return 0
